@@ -2,6 +2,7 @@ package avro
 
 import (
 	"fmt"
+	"math"
 	"reflect"
 	"unsafe"
 )
@@ -54,7 +55,11 @@ func (c Float32DoubleCodec) Read(r *ReadBuf, p unsafe.Pointer) error {
 	if err := c.DoubleCodec.Read(r, unsafe.Pointer(&f)); err != nil {
 		return err
 	}
-	*(*float32)(p) = float32(f)
+	v := float32(f)
+	if math.IsInf(float64(v), 0) && !math.IsInf(f, 0) {
+		return fmt.Errorf("value %g will not fit in float32", f)
+	}
+	*(*float32)(p) = v
 	return nil
 }
 
